@@ -10,6 +10,8 @@ where
   subject: subjects::Subject<'a, Item>,
   source: Observable<'a, Item>,
   subscription: Arc<RwLock<Option<Subscription<'a>>>>,
+  // false once the subscriber count dropped to zero (also while still connecting)
+  wanted: Arc<RwLock<bool>>,
 }
 
 impl<'a, Item> RefCount<'a, Item>
@@ -21,6 +23,7 @@ where
       subject: Subject::<Item>::new(),
       source,
       subscription: Arc::new(RwLock::new(None)),
+      wanted: Arc::new(RwLock::new(false)),
     };
     _self.set_ref_count();
     _self
@@ -33,9 +36,14 @@ where
   fn set_ref_count(&self) {
     {
       let subscription = Arc::clone(&self.subscription);
+      let wanted = Arc::clone(&self.wanted);
       self.subject.set_on_unsubscribe(move |count| {
         if count == 0 {
-          if let Some(sbsc) = &*subscription.read().unwrap() {
+          // disconnect; the slot is emptied so that the next first subscriber connects
+          // again, and no lock is held while the source is unsubscribed
+          *wanted.write().unwrap() = false;
+          let sbsc = subscription.write().unwrap().take();
+          if let Some(sbsc) = sbsc {
             sbsc.unsubscribe();
           }
         }
@@ -45,6 +53,7 @@ where
     let source = self.source.clone();
     let subject = self.subject.clone();
     let subscription = Arc::clone(&self.subscription);
+    let wanted = Arc::clone(&self.wanted);
 
     self.subject.set_on_subscribe(move |count| {
       if count == 1 {
@@ -53,12 +62,14 @@ where
         let sbj_error = subject.clone();
         let sbj_complete = subject.clone();
 
-        let mut subscription = subscription.write().unwrap();
-        if subscription.is_some() {
+        if subscription.read().unwrap().is_some() {
           return;
         }
 
-        *subscription = Some(source.subscribe(
+        // no lock is held while subscribing: a synchronous source may end the subscriber
+        // (and thereby disconnect) before subscribe returns
+        *wanted.write().unwrap() = true;
+        let sbsc = source.subscribe(
           move |x| {
             sbj_next.next(x);
           },
@@ -68,7 +79,13 @@ where
           move || {
             sbj_complete.complete();
           },
-        ));
+        );
+        if *wanted.read().unwrap() {
+          *subscription.write().unwrap() = Some(sbsc);
+        } else {
+          // the last subscriber left while the source was being subscribed
+          sbsc.unsubscribe();
+        }
       }
     });
   }
